@@ -5,6 +5,8 @@ import ChythonModel.Proofs.C11Meta
 import ChythonModel.Proofs.C11Record
 import ChythonModel.Proofs.C11V3000
 import ChythonModel.Proofs.C11RdfFrame
+import ChythonModel.Proofs.C11MetaNorm
+import ChythonModel.Proofs.C11Continuation
 import ChythonModel.Gen.PeriodicTable
 import ChythonModel.Spec.MdlOptions
 /-!
@@ -360,6 +362,163 @@ example : (∀ l ∈ [sL "$RDFILE 1\n", sL "$DATM    01/01/26 00:00\n"], isFmt l
     WFRBlock 100 [sL "title\n", sL "M  END\n", sL "$DTYPE k\n", sL "$DATUM v\n"] ∧ WFRBlock 100 [sL "garbage $MFMT\n"] ∧
     rdfMStart [sL "title\n", sL "M  END\n", sL "$DTYPE k\n", sL "$DATUM v\n"] = 2 :=
   ⟨by decide, by decide, by decide, ⟨by decide, by decide, by decide⟩, ⟨by decide, by decide, by decide⟩, by decide⟩
+
+/-! ## 10. data items: read ∘ write = the documented normalisation, on the domain of the CTfile specification
+(`Spec/CtfileData.lean`); boundaries do not depend on the data -/
+section dataitems
+open ChythonModel.Spec.CtfileData
+
+/-- **sdf_meta_normalised_roundtrip**: for every ordered dictionary of (name, value lines) in the liberal domain —
+    names without `< > &` and line breaks, not blank (`RawKey`, padding allowed); value lines that are single lines not
+    shaped like a data header (`RawLine`; padded, blank and whitespace-only lines allowed, also between text lines);
+    names distinct after stripping — what `SDFWrite.write` / `ESDFWrite.write` emit is read by `SDFRead.read_metadata`
+    as `normMeta`: names stripped, every line stripped, blank lines dropped, items without text absent, order kept. -/
+theorem sdf_meta_normalised_roundtrip (md : Meta)
+    (hwf : ∀ kv ∈ md, RawKey kv.1 ∧ (∀ v ∈ kv.2, RawLine v) ∧ kv.2 ≠ [])
+    (hnd : (md.map fun kv => strip kv.1).Nodup) :
+    readMeta (splitLinesKeep ((md.map fun kv => writeMetaChunk (kv.1, joinWith ['\n'] kv.2)).flatten)) = normMeta md :=
+  sdf_meta_norm_roundtrip md hwf hnd
+
+/-- **sdf_meta_spec_roundtrip**: the same on the decidable domain written from the CTfile specification (`sdMetaOk`:
+    printable; no data line begins with `>` or `$$$$`; names without angle brackets): read ∘ write = normalise, and no
+    written line is taken for the record delimiter -/
+theorem sdf_meta_spec_roundtrip (md : Meta) (h : sdMetaOk md = true) :
+    readMeta (splitLinesKeep ((md.map fun kv => writeMetaChunk (kv.1, joinWith ['\n'] kv.2)).flatten)) = normMeta md ∧
+    ∀ l ∈ (md.map fun kv => chunkLines kv.1 kv.2).flatten, isSep l = false := by
+  obtain ⟨h1, h2, h3⟩ := sdMeta_of_spec md h
+  refine ⟨sdf_meta_norm_roundtrip md h1 h2, ?_⟩
+  intro l hl
+  simp only [List.mem_flatten, List.mem_map] at hl
+  obtain ⟨ls, ⟨kv, hkv, rfl⟩, hl⟩ := hl
+  exact chunkLines_noSep kv.1 kv.2 (h3 kv hkv) l hl
+
+/-- a dictionary in the specification's domain whose normalisation is not the identity: padded name, padded lines, blank
+    and whitespace-only lines before, between and after the text, an item without text, `M  END` and `$` inside a value -/
+def exampleMeta : Meta :=
+  [(sL "  melting point ", [sL "", sL "  120 C ", sL "   ", sL "M  END", sL ""]),
+   (sL "empty", [sL " ", sL ""]),
+   (sL "cost", [sL "$ 5 > 4 <x>"])]
+
+example : sdMetaOk exampleMeta = true := by decide +kernel
+example : normMeta exampleMeta = [(sL "melting point", sL "120 C\nM  END"), (sL "cost", sL "$ 5 > 4 <x>")] := by
+  decide +kernel
+
+/-- **sdf_molblock_unaffected_by_data**: the lines `SDFWrite` wrote for a representable molecule, followed by
+    *arbitrary* lines `ml` — data items inside or outside every domain, further `M  END` lines, garbage —: `__m_end` is
+    the length of the MOL part, `read_structure` parses the same molecule and atom numbers, and `read_metadata` gets
+    exactly `ml`. (A reader that takes the *last* `M  END` line breaks this for `ml = [… "M  END\n" …]`.) -/
+theorem sdf_molblock_unaffected_by_data (g : WMol) (h : WFMol g) (ml : List Str)
+    (hname : isMEnd (g.name ++ sL "\n") = false)
+    (hnums : (g.atoms.map fun a => (a.num : Int)).Nodup) (hnum0 : ∀ a ∈ g.atoms, a.num ≠ 0)
+    (ls : List Str) (hw : writeMol2000 true g = .ok ls) :
+    firstMEnd (ls ++ ml) = some ls.length ∧
+    readStructure ⟨ls ++ ml, firstMEnd (ls ++ ml)⟩ =
+      .ok { mol := .v2 (expectedMol true g), mapping := g.atoms.map fun a => (a.num : Int), md := readMeta ml } :=
+  sdf_record_any_meta g h ml hname hnums hnum0 ls hw
+
+/-- **sdf_mend_first_only**: for *any* block (not only written ones) whose MOL part has its `M  END` at position `k`,
+    appending any lines leaves `__m_end = k`; and inside a file the record still ends at its own `$$$$` line when no
+    appended line starts with `$$$$` -/
+theorem sdf_mend_first_only (bufSize : Nat) (ls ml rest : List Str) (k : Nat) (hm : firstMEnd ls = some k)
+    (hwf : WFBlock bufSize (ls ++ ml)) :
+    firstMEnd (ls ++ ml) = some k ∧
+    readBlock bufSize (ls ++ ml ++ sepLine :: rest) = .ok (⟨ls ++ ml, some k⟩, rest) :=
+  ⟨firstMEnd_append ls ml k hm, sdf_block_boundary bufSize ls ml rest k hm hwf⟩
+
+/-- hypotheses satisfiable, with a second `M  END` line among the data -/
+example : firstMEnd [sL "t\n", sL "M  END\n"] = some 2 ∧
+    WFBlock 100 ([sL "t\n", sL "M  END\n"] ++ [sL ">  <k>\n", sL "M  END\n", sL "\n"]) :=
+  ⟨by decide, ⟨by decide, by decide, by decide⟩⟩
+
+/-- **sdf_record_normalised_roundtrip**: whole SD record on the specification's domain: molecule (`WFMol`), atom numbers
+    and the normalised dictionary come back from the lines `SDFWrite.write` emitted -/
+theorem sdf_record_normalised_roundtrip (g : WMol) (h : WFMol g) (md : Meta) (hmd : sdMetaOk md = true)
+    (hname : isMEnd (g.name ++ sL "\n") = false)
+    (hnums : (g.atoms.map fun a => (a.num : Int)).Nodup) (hnum0 : ∀ a ∈ g.atoms, a.num ≠ 0)
+    (ls : List Str) (hw : writeMol2000 true g = .ok ls) :
+    readStructure ⟨ls ++ (md.map fun kv => chunkLines kv.1 kv.2).flatten,
+                   firstMEnd (ls ++ (md.map fun kv => chunkLines kv.1 kv.2).flatten)⟩ =
+      .ok { mol := .v2 (expectedMol true g), mapping := g.atoms.map fun a => (a.num : Int), md := normMeta md } := by
+  obtain ⟨h1, h2, _⟩ := sdMeta_of_spec md hmd
+  rw [(sdf_record_any_meta g h _ hname hnums hnum0 ls hw).2,
+    readMeta_rawchunks md (fun kv hkv => ⟨(h1 kv hkv).1, (h1 kv hkv).2.1⟩) h2]
+
+/-- **rdf_meta_normalised_roundtrip**: `$DTYPE name` / `$DATUM first line` + continuation lines, for padded names, padded,
+    blank and whitespace-only lines (`RawRdfLine`: continuation lines do not start with `$DTYPE` / `$DATUM`; the first
+    line is unrestricted): `RDFRead.read_metadata` returns `normMeta` -/
+theorem rdf_meta_normalised_roundtrip (md : List (Str × Str × List Str))
+    (hwf : ∀ kv ∈ md, RawRdfKey kv.1 ∧ '\n' ∉ kv.2.1 ∧ (∀ v ∈ kv.2.2, RawRdfLine v))
+    (hnd : (md.map fun kv => strip kv.1).Nodup) :
+    rdfReadMeta (splitLinesKeep ((md.map fun kv => rdfMetaChunk (kv.1, joinWith ['\n'] (kv.2.1 :: kv.2.2))).flatten)) =
+      normMeta (md.map fun kv => (kv.1, kv.2.1 :: kv.2.2)) :=
+  rdf_meta_norm_roundtrip md hwf hnd
+
+/-- the same on the decidable domain of the specification (`rdMetaOk`: printable, no line begins with `$`) -/
+theorem rdf_meta_spec_roundtrip (md : List (Str × Str × List Str))
+    (h : rdMetaOk (md.map fun kv => (kv.1, kv.2.1 :: kv.2.2)) = true) :
+    rdfReadMeta (splitLinesKeep ((md.map fun kv => rdfMetaChunk (kv.1, joinWith ['\n'] (kv.2.1 :: kv.2.2))).flatten)) =
+      normMeta (md.map fun kv => (kv.1, kv.2.1 :: kv.2.2)) := by
+  obtain ⟨h1, h2⟩ := rdMeta_of_spec md h
+  exact rdf_meta_norm_roundtrip md h1 h2
+
+example : rdMetaOk ([(sL " yield ", sL "  ", [sL " 95 % ", sL "", sL "M  END > <"])].map
+    fun kv => (kv.1, kv.2.1 :: kv.2.2)) = true := by decide +kernel
+
+/-- **rdf_data_start_unaffected_by_data**: `__m_start` of an RDF record is the number of structure lines — whatever
+    lines follow the first `$DTYPE` line — and `read_metadata` gets exactly the lines from there on -/
+theorem rdf_data_start_unaffected_by_data (ls : List Str) (d : Str) (ml : List Str) (hne : ls ≠ [])
+    (hls : ∀ l ∈ ls, isDtype l = false) (hd : isDtype d = true) :
+    rdfMStart (ls ++ d :: ml) = ls.length ∧
+      rdfBlockMeta ⟨ls ++ d :: ml, rdfMStart (ls ++ d :: ml)⟩ = d :: ml :=
+  rdfMStart_data ls d ml hne hls hd
+
+end dataitems
+
+/-! ## 11. V3000 continuation lines (`-` at the end of a physical line; specification side: `Spec/CtfileData.lean`) -/
+section continuation
+open ChythonModel.Spec.CtfileData
+
+/-- **v3000_continuation_roundtrip**: for every width `w` (also 0) and every logical line text `body` of any length whose
+    last character is neither white space nor a dash, the line-joining loop of `parse_mol_v3000` reads the physical lines
+    `splitV30 w body` (each but the last ending in `-`, each starting with `M  V30 `) as the single joined line
+    `strip body` — exactly what it makes of the unsplit line — and continues with the following lines unchanged. -/
+theorem v3000_continuation_roundtrip (w : Nat) (body : Str) (x : Char) (rest : List Str)
+    (hlast : body.getLast? = some x) (hsp : isSpace x = false) (hdash : x ≠ '-') :
+    joinLines (splitV30 w body ++ rest) [] = strip body :: joinLines rest [] ∧
+    joinLines ((v30 ++ body ++ sL "\n") :: rest) [] = strip body :: joinLines rest [] := by
+  refine ⟨joinLines_splitV30 w body x rest hlast hsp hdash, ?_⟩
+  have := joinLines_chunks body x rest hlast hsp hdash [] []
+  have h0 : lstrip ([] : Str) = [] := rfl
+  rw [h0] at this
+  simpa [physLines] using this
+
+/-- **v3000_continuation_any_chunking**: the same for *any* way of cutting the text into chunks (other programs break
+    lines at token boundaries, not at column 80): chunks `cs`, final chunk `c` ending in a visible non-dash character -/
+theorem v3000_continuation_any_chunking (cs : List Str) (c : Str) (x : Char) (rest : List Str)
+    (hlast : c.getLast? = some x) (hsp : isSpace x = false) (hdash : x ≠ '-') :
+    joinLines (physLines cs c ++ rest) [] = strip (cs.flatten ++ c) :: joinLines rest [] := by
+  have := joinLines_chunks c x rest hlast hsp hdash cs []
+  have h0 : lstrip ([] : Str) = [] := rfl
+  rw [h0] at this
+  simpa using this
+
+/-- **v3000_split_fits**: the physical lines of `splitV30 w` are at most `w + 9` characters long including the line end
+    (`w = 72`: 80 columns + line end) and carry exactly the text of the logical line -/
+theorem v3000_split_fits (w : Nat) (hw : 1 ≤ w) (body : Str) :
+    (∀ l ∈ splitV30 w body, l.length ≤ w + 9) ∧
+    ((chunks w body.length body).dropLast ++ [(chunks w body.length body).getLast?.getD []]).flatten = body :=
+  ⟨splitV30_width w hw body, splitV30_text w body⟩
+
+/-- a 100-character atom line is cut into two physical lines at width 72 and joined back -/
+example : (splitV30 72 (sL "1 C 0.0000 0.0000 0 7 CHG=-1 RAD=2 MASS=13 " ++ List.replicate 50 'x')).length = 2 ∧
+    joinLines (splitV30 72 (sL "1 C 0.0000 0.0000 0 7 CHG=-1 RAD=2 MASS=13 " ++ List.replicate 50 'x')) [] =
+      [sL "1 C 0.0000 0.0000 0 7 CHG=-1 RAD=2 MASS=13 " ++ List.replicate 50 'x'] := by decide +kernel
+
+/-- the hypothesis on the last character is needed: a logical line ending in a dash is taken for a continued line -/
+example : joinLines [v30 ++ sL "1 C 0 0 0 0 X=-" ++ sL "\n", v30 ++ sL "2 C 0 0 0 0\n"] [] =
+    [sL "1 C 0 0 0 0 X=2 C 0 0 0 0"] := by decide +kernel
+
+end continuation
 
 /-! ## 9. option forwarding (table regenerated by an AST walk over `chython/files/*.py`: `Gen/MdlOptions.lean`;
 obligations from the docstrings: `Spec/MdlOptions.lean`) -/
